@@ -6,13 +6,16 @@
      - verification (verify, hash_verify, _internal_verify) for every public key, signature,
        message and context byte string of any content/length (from the C02 refinement);
      - deserialisation of every public-key byte string and every private-key byte string;
-   The remaining entry points (signing, serialisation, public-key derivation for accepted private
-   keys) are listed at the end of the file with what is proved for them.  Everything is in addition
+     - key generation for every seed, into_bytes and get_public_key for every generated key,
+       into_bytes and get_public_key for every private key that deserialisation accepted,
+       into_bytes for every deserialised public key (from the C04/C09/C11 refinements).
+   Remaining: signing (C03 refinement).  Everything is in addition
    decided by the hostile-input streams of tools/streams.py on the checked build. *)
 Require Import List ZArith Lia. Import ListNotations.
 Require Import F204.Base.Util F204.Base.Mach F204.Gen.Params F204.Gen.Guards F204.Hash.HashIface F204.Impl.Helpers F204.Impl.HighLow
   F204.Impl.Hashing F204.Impl.MlDsa F204.Impl.Api F204.Proofs.KernelLemmas
-  F204.Proofs.BitPackProofs F204.Proofs.SkDecodeProofs F204.Proofs.SampleRefine F204.Proofs.VerifyRefine.
+  F204.Proofs.BitPackProofs F204.Proofs.SkDecodeProofs F204.Proofs.SampleRefine F204.Proofs.VerifyRefine
+  F204.Proofs.KeyRoundTrip F204.Proofs.KeygenRefine F204.Proofs.DeriveRefine.
 Open Scope Z_scope.
 
 Lemma res_fuel_no_panic {A} (o : option A) : is_panic (res_fuel o) = false.
@@ -63,6 +66,29 @@ Proof.
 Qed.
 Theorem C13_mont_no_panic_partial : forall a, -17996808479301632 <= a <= 17996808470921215 -> is_panic (mont_reduce a) = false.
 Proof. intros a Ha. destruct (mont_reduce_spec a Ha) as (r & E & _). now rewrite E. Qed.
+(* key generation for every seed; serialisation and derivation for every generated key and for every
+   private key that deserialisation accepted *)
+Theorem C13_key_operations_no_panic : forall H, HashLaws H -> forall P, In P all_params ->
+  (forall xi, is_panic (keygen_from_seed H P xi) = false) /\
+  (forall xi pk sk, keygen_from_seed H P xi = Ok (pk, sk) ->
+     is_panic (pk_into_bytes P pk) = false /\ is_panic (sk_into_bytes P sk) = false /\ is_panic (get_public_key H P sk) = false) /\
+  (forall skb sk, bytes_ok skb -> zlen skb = p_sk_len P -> sk_try_from_bytes P skb = Ok sk ->
+     is_panic (sk_into_bytes P sk) = false /\ is_panic (get_public_key H P sk) = false) /\
+  (forall pkb pk, bytes_ok pkb -> zlen pkb = p_pk_len P -> pk_try_from_bytes H P pkb = Ok pk -> is_panic (pk_into_bytes P pk) = false).
+Proof.
+  intros H HL P HP. split; [|split; [|split]].
+  - intros xi. unfold keygen_from_seed. destruct (Spec.SpecMLDSA.KeyGen_internal H P xi) as [[pkb skb]|] eqn:E.
+    + destruct (keygen_bytes H HL P HP xi pkb skb E) as (pk & sk & _ & _ & _ & _ & _ & _ & _ & _ & Ek & _). rewrite Ek. reflexivity.
+    + rewrite (keygen_fuel H HL P HP xi E). reflexivity.
+  - intros xi pk sk E. destruct (generated_roundtrip H HL P HP xi pk sk E) as (pkb & skb & _ & _ & _ & _ & E1 & _ & E3 & _).
+    rewrite E1, E3, (derive_generated H HL P HP xi pk sk E). repeat split.
+  - intros skb sk Hb Hl E. rewrite (sk_roundtrip_bytes P skb sk HP Hb Hl E). split; [reflexivity|].
+    destruct (expand_private_repr P skb sk HP Hb Hl E) as (rho & K & tr & s1 & s2 & t0 & Ed & Hrep).
+    apply (derive_no_panic H HL P HP sk rho K tr s1 s2 t0); [|exact Hrep]. apply (sk_decode_byte_fields P skb rho K tr s1 s2 t0 HP Hl Ed).
+  - intros pkb pk Hb Hl E. destruct (pk_roundtrip_bytes H P pkb HP Hb Hl) as (pk' & E1 & E2 & _). rewrite E in E1. injection E1 as <-. rewrite E2. reflexivity.
+Qed.
+
+Print Assumptions C13_key_operations_no_panic.
 Print Assumptions C13_verify_no_panic.
 Print Assumptions C13_deserialise_no_panic.
 Print Assumptions C13_kernels_no_panic_partial.
